@@ -195,14 +195,14 @@ def main(tier, seed):
     t0 = time.time()
     rep = C.Reporter(PID, tier, seed)
     C.build(['num', 'core'])
-    shards, per = (32, 1250) if tier == 'quick' else (96, 4200)
+    shards, per = (32, 1250) if tier == 'quick' else (160, 12500)
     bad, hist, samples, n = N.run_sharded(MOD, tier, seed, shards, per)
     for c, why in bad:
         rep.violation('num:' + c['script'], 'comparison differs from the numeric order',
                       {'script': c['script'], 'problem': why, 'replay': "echo '<script>' | %s" % C.HV_NUM})
     distinct = hist.pop('_distinct', 0)
     # program level
-    np_ = 2500 if tier == 'quick' else 20000
+    np_ = 2500 if tier == 'quick' else 100000
     rundir = C.mktmp(PID)
     _RUN.update(tier=tier, seed=seed, dir=rundir)
     results = C.pmap(_case, list(range(np_)), chunksize=4, stop_after_bad=60,
